@@ -39,6 +39,8 @@ func (c c09conf) String() string {
 type c09emitted struct {
 	wire          []byte
 	refusedBefore int
+	// rawPayload != nil: the application handed over an already encoded message; its payload goes out as it is
+	rawPayload []byte
 }
 
 // checkLink runs the identity checks and the sequence automaton (DESIGN §8.4) over one link.
@@ -89,7 +91,10 @@ func c09checkLink(rep *vh.Report, api string, conf c09conf, genv *gateEnv, frame
 		if conf.version == 1 && len(f.Payload) != mi.Layout.SizeBase {
 			rep.Violation("api="+api+" what=v1ext", fmt.Sprintf("v1 payload has %d bytes, base size is %d (extensions must be omitted)", len(f.Payload), mi.Layout.SizeBase), wit())
 		}
-		if conf.version == 2 && (len(f.Payload) == 0 || (len(f.Payload) > 1 && f.Payload[len(f.Payload)-1] == 0)) {
+		if e.rawPayload != nil {
+			// an already encoded message: whether its payload is re-truncated is not C09's business (checksum and identity are)
+			rep.Count("raw_messages_originated", 1)
+		} else if conf.version == 2 && (len(f.Payload) == 0 || (len(f.Payload) > 1 && f.Payload[len(f.Payload)-1] == 0)) {
 			rep.Violation("api="+api+" what=v1ext", "v2 payload not zero-truncated", wit())
 		}
 		// sequence automaton
@@ -295,6 +300,16 @@ func TestC09(t *testing.T) {
 						continue
 					}
 					m, mi := randMsg(v2, api == "streamwriter" && r.Chance(1, 3))
+					var rawPayload []byte
+					if raw, isRaw := m.(*message.MessageRaw); isRaw {
+						if v2 && r.Chance(1, 2) {
+							// not truncated by whoever encoded it: zero tails included (the payload is the application's business)
+							val := reflect.New(mi.Type)
+							vh.FillMessage(r, mi.Layout, val, vh.ModeZeroTail)
+							raw.Payload = mi.Layout.EncodeFull(val, true)
+						}
+						rawPayload = append([]byte{}, raw.Payload...)
+					}
 					if err := write(m); err != nil {
 						rep.Violation("api="+api+" what=checksum", "a dialect message was refused: "+err.Error(), mi.Name)
 						continue
@@ -303,7 +318,7 @@ func TestC09(t *testing.T) {
 						rep.Violation("api="+api+" what=version", fmt.Sprintf("one write produced %d transport writes", len(rw.calls)), conf.String())
 						continue
 					}
-					emitted = append(emitted, c09emitted{wire: rw.calls[0], refusedBefore: refused})
+					emitted = append(emitted, c09emitted{wire: rw.calls[0], refusedBefore: refused, rawPayload: rawPayload})
 				}
 			})
 			rep.Distinct(conf.String(), api)
